@@ -81,3 +81,14 @@ def some_bytes(name="b"):
 
 
 Sqlite = "Sqlite"
+
+
+Cache = "Cache"
+
+
+def cache_node(c, name="n"):
+    raise NotImplementedError("symbolic-only fixture")
+
+
+def id_map(c, k):
+    return c._oid_to_node.get(k)
